@@ -5,7 +5,7 @@ import OccaProofs.Lemmas.GcDelete6
 
 namespace Occa.Gc
 
-theorem InvX.del_mem {ex : Option Var} {s : St} {m : Nat} (hi : InvX ex s) (ha : s.alive m = true)
+theorem InvX.del_mem {ex : Var → Prop} {s : St} {m : Nat} (hi : InvX ex s) (ha : s.alive m = true)
     (hk : s.kind m = .mem)
     (hpool : ∀ b, s.par m = some b → s.kind b = .pool → s.useRefs b = true → s.ring b ≠ []) :
     InvX ex (deleteMem s m)
@@ -48,8 +48,8 @@ theorem InvX.del_mem {ex : Option Var} {s : St} {m : Nat} (hi : InvX ex s) (ha :
       have : x = m := by simpa using hxm
       subst this
       exact (hi.ch_ok k' d' x (hkA.chS k' d' x hx)).2.2.2.2.1 hk
-  have hempA : Emptied sA [m] := single_emptied hi.toInv0 hk' hkA
-  have hi0A : Inv0 ex sA := hi.toInv0.killed hkA (single_closed hi.toInv0 ha hk') hpurA hempA
+  have hempA : Emptied sA [m] := single_emptied hi.toInv00 hk' hkA
+  have hi0A : Inv0 ex sA := hi.toInv0.killed hkA (single_closed hi.toInv00 ha hk') hpurA hempA
   have hnf : needsFreeBuf sA b
       = if s.kind b = .pool then (s.useRefs b && (s.ring b).isEmpty) else (Ring.remove (s.kids b) m).isEmpty := by
     unfold needsFreeBuf
@@ -78,8 +78,11 @@ theorem InvX.del_mem {ex : Option Var} {s : St} {m : Nat} (hi : InvX ex s) (ha :
       unfold bufK
       have : sA.kind b ≠ .pool := by rw [hsAkind]; decide
       simp [this, hsAk0]
-    obtain ⟨d, _, hkB, _, _⟩ := deleteBuf_core hi0A hsAalive (Or.inl hsAkind)
-    obtain ⟨hpurB, hempB⟩ := deleteBuf_purged hi0A hsAalive (Or.inl hsAkind)
+    have hkbd : sA.kind b ≠ .dev := by rw [hsAkind]; decide
+    have hkbm : sA.kind b ≠ .mem := by rw [hsAkind]; decide
+    obtain ⟨d, hpA, hdaA, hdkA, _⟩ := hi0A.ch_par b hsAalive hkbd hkbm
+    obtain ⟨hkB, _, _⟩ := deleteBuf_core hi0A.toInv00 hsAalive (Or.inl hsAkind) hpA hdaA hdkA
+    obtain ⟨hpurB, hempB⟩ := deleteBuf_purged hi0A.toInv00 hsAalive (Or.inl hsAkind) hpA hdaA hdkA
     rw [hbK] at hkB hpurB hempB
     simp only [hneed, if_true]
     generalize deleteBuf sA b = sB at *
@@ -165,7 +168,7 @@ theorem InvX.del_mem {ex : Option Var} {s : St} {m : Nat} (hi : InvX ex s) (ha :
     have hkF : Killed s [m] (sA.setPar m none) := by simpa using hkA.trans hfin.killed
     refine ⟨?_, [m], hkF, by simp, fun x hx => Or.inl (by simpa using hx)⟩
     have hcl : Closed s [m] := by
-      refine ⟨single_closed hi.toInv0 ha hk', ?_⟩
+      refine ⟨single_closed hi.toInv00 ha hk', ?_⟩
       intro b' _ hb'k _ hne
       by_cases hb' : b' = b
       · subst hb'
